@@ -225,7 +225,10 @@ pub fn replay(args: &[String]) {
 // ------------------------------------------------------------------ recorder --
 const BRANCHES: &[&str] = &["main", "develop", "develop/x", "release/1", "release/1/x", "release/x", "release-1", "releases", "release/",
     "release", "feature/7/y", "feature/x/08", "9/x", "hotfix/2.1", "feature/Ünï-çødé", "日本/7", "a", "release/000123", "release/999999999",
-    "feature/this-is-a-very-long-branch-name-with-many-many-segments/and/more/of/them/0/1/2/3/4/5/6/7/8/9/x", "dev elop", "release/v2"];
+    "feature/this-is-a-very-long-branch-name-with-many-many-segments/and/more/of/them/0/1/2/3/4/5/6/7/8/9/x", "dev elop", "release/v2",
+    // segments that a lenient number parser would take for numbers, and all-digit segments that do not fit u32
+    "release/+5", "feature/+12/ui", "hotfix/+4", "release/-3/4", "release/1e3/8", "release/\u{663}/6", "release/99999999999/2",
+    "release/4294967296/1", "release/00000000000000000001", "feature/x/+0", "release/1_0/3"];
 const PATTERNS: &[(&str, bool)] = &[("develop", false), ("release/*", true), ("feature/*", true), ("*", true), ("main", false),
     ("release/1/*", true), ("release", false), ("release/1", false), ("hotfix/*", true), ("日本/*", true), ("release-1", false)];
 
